@@ -37,6 +37,50 @@ pub mod signum;
 mod wnaf;
 pub use self::wnaf::Wnaf;
 
+/// Verification hook (compiled only with `--cfg pairing_plus_verif`): an opt-in, thread-local
+/// recorder of the bucket method's per-window state (window position, doublings, the bucket
+/// index of every scalar, highest non-empty bucket). Inactive unless `start()` was called.
+#[cfg(pairing_plus_verif)]
+pub mod verif_pippenger {
+    use std::cell::RefCell;
+    /// (bit_sequence_index, num_doubles, max_bucket, bucket indices in input order)
+    pub type Window = (usize, usize, usize, Vec<usize>);
+    thread_local! {
+        static REC: RefCell<Option<Vec<Window>>> = RefCell::new(None);
+    }
+    pub fn start() {
+        REC.with(|r| *r.borrow_mut() = Some(vec![]));
+    }
+    pub fn take() -> Vec<Window> {
+        REC.with(|r| r.borrow_mut().take().unwrap_or_default())
+    }
+    pub fn window(bsi: usize, num_doubles: usize) {
+        REC.with(|r| {
+            if let Some(v) = r.borrow_mut().as_mut() {
+                v.push((bsi, num_doubles, 0, vec![]));
+            }
+        });
+    }
+    pub fn digit(d: usize) {
+        REC.with(|r| {
+            if let Some(v) = r.borrow_mut().as_mut() {
+                if let Some(w) = v.last_mut() {
+                    w.3.push(d);
+                }
+            }
+        });
+    }
+    pub fn max_bucket(m: usize) {
+        REC.with(|r| {
+            if let Some(v) = r.borrow_mut().as_mut() {
+                if let Some(w) = v.last_mut() {
+                    w.2 = m;
+                }
+            }
+        });
+    }
+}
+
 /// Verification hooks (compiled only with `--cfg pairing_plus_verif`): public wrappers
 /// around the crate-private wNAF primitives, so that every window size can be driven.
 #[cfg(pairing_plus_verif)]
